@@ -58,6 +58,14 @@ class SimDeadlock(BaseException):
     """the parent would block forever (e.g. `join()` of a hung worker)"""
 
 
+class WorkerSpins(BaseException):
+    """leaves the real worker loop: it keeps polling an empty task queue without ever consulting a terminate flag the
+    simulator can see (watchdog: the worker turn would never end)"""
+
+
+SPIN_LIMIT = 200      # empty polls in ONE worker turn after which the worker is declared deaf to the terminate flag
+
+
 def rid_of(x):
     """recording id carried by a queue item (plain id today; a repaired tree may tag it)"""
     if isinstance(x, str):
@@ -81,6 +89,9 @@ class Sim(object):
         self.frozen = None        # snapshot taken when the parent blocks forever
         self.why = None           # ... and where it blocks
         self.poll_limit = 60      # polls for one task after which the parent is declared stuck (timeouts in the cases are <= 5 s)
+        self.poll_ids = []        # recording id of every queued task (parallel to polls)
+        self.several_runs = False  # several equalizers share this simulated process (multi-run cases)
+        self.max_live_by_owner = {}
 
     def beh(self, rid):
         return self.script.get(rid, 'equal')
@@ -221,6 +232,7 @@ class FakeQueue(object):
         if w is None:                       # parent queues a task
             self.items.append(_Item(x))
             sim.polls.append(0)
+            sim.poll_ids.append(rid_of(x))
             return
         b = sim.beh(w.playing)              # worker answers
         if b == 'put_raises' and not w.put_refused:
@@ -257,6 +269,9 @@ class FakeQueue(object):
                 w.took_at = sim.clock
                 return x
             w.yield_requested = True
+            w.spins += 1
+            if w.flag_blind or w.spins > SPIN_LIMIT:
+                raise WorkerSpins()
             raise queue.Empty()
         # parent waits for an answer
         if sim.polls:
@@ -309,6 +324,9 @@ class FakeProcess(object):
         self.playing = None
         self.yield_requested = False
         self.saw_flag = False
+        self.spins = 0
+        self.flag_blind = False   # its loop never looks at a terminate flag (spin watchdog fired): idle for ever
+        self.owner = getattr(target, '__self__', None)      # the equalizer whose worker this is
         sim.procs.append(self)
 
     # -- multiprocessing.Process API
@@ -316,6 +334,9 @@ class FakeProcess(object):
         self.state = 'idle'
         self.sim.events.append(['start', self.ordinal])
         self.sim.max_live = max(self.sim.max_live, len(self.sim.live()))
+        k = id(self.owner)
+        mine = len([p for p in self.sim.live() if p.owner is self.owner])
+        self.sim.max_live_by_owner[k] = max(self.sim.max_live_by_owner.get(k, 0), mine)
 
     def is_alive(self):
         return self.is_alive_()
@@ -341,6 +362,11 @@ class FakeProcess(object):
                 sim.clock = max(sim.clock, self.ready)
             before = (len(self.served), self.state)
             self.turn()
+            if sim.several_runs:
+                # the workers of the other runs keep polling while the parent blocks here
+                for p in list(sim.procs):
+                    if p is not self and p.owner is not self.owner:
+                        p.turn()
             if self.is_alive_() and self.state == 'idle' and before == (len(self.served), 'idle'):
                 # an idle worker that was not told to terminate never exits
                 if timeout is None:
@@ -399,6 +425,7 @@ class FakeProcess(object):
         sim.worker = self
         self.yield_requested = False
         self.saw_flag = False
+        self.spins = 0
         try:
             self.target(*self.args, **self.kwargs)     # the REAL worker loop
             if self.saw_flag or not self.yield_requested:
@@ -415,6 +442,14 @@ class FakeProcess(object):
                 self.state = 'hung'
         except WorkerBusy:
             pass
+        except WorkerSpins:
+            # the real process would poll on for ever: it stays alive (serving the tasks it finds) whatever flag
+            # anybody sets; from now on its turn ends at the first empty poll
+            if not self.flag_blind:
+                sim.events.append(['ignores-terminate-flag', self.ordinal])
+            self.flag_blind = True
+            sim.why = sim.why or ('worker #%d polls its task queue without consulting a terminate flag created through '
+                                  'the multiprocessing module the equalizer uses' % self.ordinal)
         finally:
             sim.worker = prev
             self.yield_requested = False
@@ -454,14 +489,38 @@ class FakeMP(object):
         return getattr(_real_mp, name)
 
 
+def _shared_primitives(eqmod):
+    """multiprocessing primitives the module created when it was imported (module globals, class attributes): they
+    are shared by every equalizer of the process and were made by the real `multiprocessing`"""
+    import multiprocessing.synchronize as _sync
+    import multiprocessing.queues as _queues
+    holders = [eqmod] + [v for v in vars(eqmod).values()
+                         if isinstance(v, type) and getattr(v, '__module__', None) == eqmod.__name__]
+    for h in holders:
+        for k, v in list(vars(h).items()):
+            if isinstance(v, _sync.Event):
+                yield h, k, v, 'event'
+            elif isinstance(v, (_queues.Queue, _queues.SimpleQueue)):
+                yield h, k, v, 'queue'
+
+
 def install(eqmod, sim):
-    """substitute the three module attributes; returns a function that restores them"""
+    """substitute the three module attributes (and every multiprocessing primitive the module made at import time:
+    one fake stand-in per primitive, shared exactly as the original is); returns a function that restores them"""
     saved = {k: getattr(eqmod, k, None) for k in ('mp', 'time', 'os')}
+    shared = list(_shared_primitives(eqmod))
     eqmod.mp = FakeMP(sim)
     eqmod.time = FakeTime(sim)
     eqmod.os = FakeOS(sim)
+    for h, k, v, kind in shared:
+        fake = FakeEvent(sim) if kind == 'event' else FakeQueue(sim)
+        if kind == 'event':
+            fake.flag = bool(v.is_set())
+        setattr(h, k, fake)
 
     def restore():
+        for h, k, v, kind in shared:
+            setattr(h, k, v)
         for k, v in saved.items():
             if v is None:
                 if hasattr(eqmod, k):
